@@ -1,5 +1,6 @@
 import Plotink.PyIO
 import Plotink.Model.Ebb3
+import Plotink.Model.C19
 /-! # PyObj — object layer of the runtime for source-regenerated I/O code (core Lean only)
 
 `translator/pyio2lean.py` turns the *methods of a class* into Lean definitions built from the combinators of this
@@ -658,6 +659,126 @@ def run (body : Stmt ω σ) (fuel : Nat) (env : σ) (w : World ω) : Out ω :=
   | .fuelOut => .fuelOut
 
 end
+
+/-! ## module-level functions (the legacy layers): no object, calls of `PyIO`-layer functions, more `str` methods
+
+Functions are translated like methods of an object without attributes (`ω = NoObj`); they call each other with
+`mcall0 … mcall3` and the two functions of the `PyIO` layer (`Gen.ebb_serial_command`, `Gen.ebb_serial_query`, which
+are bridged to `Model/C07.lean`) through `ioCall3`, which converts arguments and result between the two value types and
+threads the same device script. -/
+
+/-- `x is True` / `x is False` (identity with the singleton: `1 is True` is false) -/
+def op_is_bool (b : Bool) : Val → P
+  | .bool c => .ok (.bool (b == c))
+  | _ => .ok (.bool false)
+def op_is_not_bool (b : Bool) : Val → P
+  | .bool c => .ok (.bool (b != c))
+  | _ => .ok (.bool true)
+
+/-- the "object" of a module-level function -/
+structure NoObj where
+  mk ::
+
+mutual
+def toIO : Val → PyIO.Val
+  | .str s => .str s
+  | .bytes b => .bytes b
+  | .int n => .int n
+  | .bool b => .bool b
+  | .none => .none
+  | .list l => .list (toIOList l)
+  | .tuple l => .list (toIOList l)
+  | .port => .port
+  | .exc c => .exc c
+  | _ => .unbound
+def toIOList : List Val → List PyIO.Val
+  | [] => []
+  | a :: r => toIO a :: toIOList r
+end
+
+mutual
+def ofIO : PyIO.Val → Val
+  | .str s => .str s
+  | .bytes b => .bytes b
+  | .int n => .int n
+  | .bool b => .bool b
+  | .none => .none
+  | .list l => .list (ofIOList l)
+  | .port => .port
+  | .exc c => .exc c
+  | .unbound => .unbound
+def ofIOList : List PyIO.Val → List Val
+  | [] => []
+  | a :: r => ofIO a :: ofIOList r
+end
+
+/-- the outcome of a `PyIO`-layer function as a result of this layer -/
+def ofIOOut {ω : Type} (w : World ω) : PyIO.Out → Res × World ω
+  | .val v p => (.ok (ofIO v), { w with port := p })
+  | .exc c p => (.exc c, { w with port := p })
+  | .fuelOut => (.fuelOut, w)
+
+/-- call of a three-argument function of the `PyIO` layer (`ebb_serial.command/query(port, text, verbose)`) -/
+def ioCall3 {ω : Type} (f : PyIO.Val → PyIO.Val → PyIO.Val → PyIO.Port → PyIO.Out) (a b c : Eff ω) : Eff ω :=
+  bind a fun x => bind b fun y => bind c fun z => fun w => ofIOOut w (f (toIO x) (toIO y) (toIO z) w.port)
+
+/-- one piece of a `str.format` template -/
+inductive FmtPart where
+  | lit (s : Str)
+  | arg (i : Nat)
+
+def renderFmt : List FmtPart → List Val → Option Str
+  | [], _ => some []
+  | .lit s :: r, xs => (renderFmt r xs).map (s ++ ·)
+  | .arg i :: r, xs =>
+    match xs[i]? with
+    | some v => (renderFmt r xs).map (strOf v ++ ·)
+    | Option.none => Option.none
+
+/-- `'…{0}…{1}…'.format(a, b, …)` with positional fields (arguments evaluated once, left to right) -/
+def format_ {ω : Type} (tpl : List FmtPart) (args : List (Eff ω)) : Eff ω :=
+  evalList args fun xs =>
+    match renderFmt tpl xs with
+    | some s => ok (.str s)
+    | Option.none => raise .indexError
+
+/-- `s.split(p)` for a literal separator of several characters: all occurrences, left to right
+(third argument: characters of a matched separator still to be skipped) -/
+def splitSubGo (p : Str) : Str → Str → Nat → List Str
+  | [], acc, _ => [acc.reverse]
+  | _ :: cs, acc, k + 1 => splitSubGo p cs acc k
+  | c :: cs, acc, 0 =>
+    if p.isPrefixOf (c :: cs) then acc.reverse :: splitSubGo p cs [] (p.length - 1)
+    else splitSubGo p cs (c :: acc) 0
+def meth_split_str (p : Str) : Val → P
+  | .str s => .ok (.list ((splitSubGo p s [] 0).map Val.str))
+  | .bytes _ => .error .typeError
+  | _ => .error .attributeError
+
+/-- `s.find(n)` (`-1` when absent; `C19.findIdx`) -/
+def meth_find : Val → Val → P
+  | .str s, .str n => .ok (.int (match C19.findIdx n s with | some i => (i : Int) | Option.none => -1))
+  | .str _, _ => .error .typeError
+  | _, _ => .error .attributeError
+/-- `s.find(n, start)` for `0 ≤ start` (`C19.findFrom`; beyond the end: `-1`) -/
+def meth_find_from : Val → Val → Val → P
+  | .str s, .str n, st =>
+    (match intOf st with
+     | some i =>
+       let k : Nat := if 0 ≤ i then i.toNat else (s.length - (-i).toNat)
+       if k ≤ s.length then
+         .ok (.int (match C19.findFrom n s k with | some j => (j : Int) | Option.none => -1))
+       else .ok (.int (-1))
+     | Option.none => .error .typeError)
+  | .str _, _, _ => .error .typeError
+  | _, _, _ => .error .attributeError
+/-- `s.replace(a, b)` for a non-empty `a` (for the empty pattern the text is returned unchanged: the translated
+code only ever discards the result) -/
+def meth_replace : Val → Val → Val → P
+  | .str s, .str a, .str b =>
+    if a.isEmpty then .ok (.str s) else .ok (.str (b.intercalate (splitSubGo a s [] 0)))
+  | .str _, _, _ => .error .typeError
+  | _, _, _ => .error .attributeError
 
 end PyObj
 end Plotink
